@@ -610,8 +610,11 @@ pub fn families() -> Vec<Box<dyn Family>> {
                 let mut rng = Rng::for_case(cfg.seed, "c13.handbuilt_hunks", idx);
                 let lo = 1 + rng.below(if cfg.tiny { 4 } else { 9 });
                 let ln = 1 + rng.below(if cfg.tiny { 4 } else { 9 });
-                let sa: Vec<String> = (0..lo).map(|i| format!("old{}\n", i)).collect();
-                let sb: Vec<String> = (0..ln).map(|i| format!("new{}\n", i)).collect();
+                // every third case: old and new tokens come from ONE small alphabet, so that caller-built Replace /
+                // Delete / Insert ops may cover items that are equal by value (an op is what it says, not what it covers)
+                let shared = idx % 3 == 1;
+                let sa: Vec<String> = (0..lo).map(|i| if shared { format!("t{}\n", i % 2) } else { format!("old{}\n", i) }).collect();
+                let sb: Vec<String> = (0..ln).map(|i| if shared { format!("t{}\n", i % 2) } else { format!("new{}\n", i) }).collect();
                 let ra: Vec<&str> = sa.iter().map(|s| s.as_str()).collect();
                 let rb: Vec<&str> = sb.iter().map(|s| s.as_str()).collect();
                 let nops = 1 + rng.below(4);
